@@ -17,15 +17,23 @@ CLAIMS = {
    tech="typed-AST return-kind classification + sibling agreement (Index/HasIndex key validation; LessThan/GreaterThan mirror) + dominance of presence tests over payload-map lookups",
    text="Decides: every return of each operation method has the documented result kind; Index and HasIndex reject the same key conditions per receiver kind and the list/tuple branches agree; LessThan and GreaterThan are exact mirror images; every payload-map lookup that produces a member is an iteration, keyed by the object type's attribute names, comma-ok, or dominated by a presence test (missing keys are rejected, never a null member).",
    note="Not decided: every numeric clause (agreement with exact rational arithmetic, precision selection, truth tables on runtime values). "),
- "C03": dict(rules=["C03.kind-total"],
-   tech="kind-dispatch coverage of the equality / hashing / ordering entry points",
-   text="Decides: Equals, RawEquals and the set hash cover every kind of type with a panicking residual, and the set ordering covers the three primitive kinds.",
+ "C03": dict(rules=["C03.kind-total","C03.set-protocol","C20.set-storage","C02.map-lookup-presence","C20.order-free-results"],
+   tech="kind-dispatch coverage of the equality / hashing / ordering entry points + who-may-write and must-pass-through rules in package set + go/ssa storage-independence of returned sets + presence-test dominance and map-range order classification in Equals",
+   text="Decides: Equals, RawEquals and the set hash cover every kind of type with a panicking residual and the set ordering covers the three primitive kinds; in package set only Add/Remove write buckets, buckets are chosen by rules.Hash and members compared with rules.Equivalent, Add appends only after the equivalence scan; every set-returning function returns fresh bucket storage; equality reads map members only under presence tests (differing key sets are noticed) and does not depend on map iteration order.",
    note="Not decided: reflexivity/symmetry/transitivity of number equality, hash/equality coherence for numbers, trichotomy (value-level). "),
  "C04": dict(rules=["C04.op-prologue","C04.convert-wrapper","C04.call-marks","C04.stdlib-mark-tolerance"],
    tech="AST shape rule on 21 operation methods (mark prologue) + typestate for payload access + must-pass-through of WithMarks in the convert wrapper and Function.Call",
    text="Decides: every operation method tests, unmarks and re-marks ALL its operands (or purely delegates); payload assertions in operation methods happen only after the prologue; the convert wrapper and function.Call re-apply the marks they strip on every success return.",
    note="Not decided: value equality of marked and unmarked runs, mark handling inside AllowMarked implementations (exempted by the property). "),
- "C07": dict(rules=["C07.kind-total","C07.equals-field-coverage","C07.json-tags","C07.strip-rebuilds-everything","C07.conformance-structure"],
+ "C05": dict(rules=["C05.mirror","C05.builder-discipline","C05.safe-prefix-route","C20.builder-copy"],
+   tech="mirror (sibling) agreement of the lower/upper bound code + must-facts dominance of keep-tighter / known-value conditions over every store into the working refinement + must-pass-through of the consistency assertion + go/ssa alias check that builder and value never share a refinement record",
+   text="Decides: every builder mutator first returns unchanged for a non-refineable (dynamic) value; every store of a bound or prefix is dominated by a condition consulting the existing bound of the same family and by one consulting the value being refined, and is followed by the consistency assertion on all paths; the number lower/upper bound setters and getters are exact mirror images; the safe prefix constructor and every truncation of a prefix go through SafeKnownPrefix; Refine() works on a copy and NewValue publishes a copy.",
+   note="Not decided: that the reported range is exactly what the constraints imply for tie cases, that every contradiction with a known value is caught, Unicode continuation safety of SafeKnownPrefix itself (needs the UAX #15/#29 tables). "),
+ "C06": dict(rules=["C06.single-mark-layer","C06.literal-payload-kind","C08.optional-taint","C08.partial-constructors","C20.set-storage"],
+   tech="must-facts over go/cfg for the unwrap-before-wrap idiom of marker construction + static payload typing of every Value literal + optional-attribute taint to value constructors (shared with C08)",
+   text="Decides: wherever a marker is built its payload is another marker's realV or was tested not to be a marker (at most one layer of marks); every Value literal whose type names a kind carries the Go payload type of that kind; requested types reach null/unknown/empty-collection constructors in package convert only stripped of optional-attribute annotations; collection constructors in convert are guarded by emptiness and Can*Val tests.",
+   note="Not decided: that dynamic payloads satisfy the invariants on every path (tuple length equals type length, object attribute sets), NFC normalisation of every string reaching a payload — only construction sites are checked. "),
+ "C07": dict(rules=["C07.kind-total","C07.equals-field-coverage","C07.json-tags","C07.strip-rebuilds-everything","C07.conformance-structure","C07.conformance-ignores-optional"],
    tech="kind-dispatch coverage + field-coverage of the eight typeImpl.Equals implementations + writer/reader tag-table agreement for type JSON",
    text="Decides: each typeImpl.Equals asserts the other side to its own concrete type and compares every field from both sides; HasDynamicTypes / WithoutOptionalAttributesDeep / MarshalJSON cover all kinds with a panicking residual; testConformance recurses given-vs-want per compound kind and its residual appends an error; the type names written by MarshalJSON equal those accepted by UnmarshalJSON; stripping rebuilds every compound kind and never constructs optional attributes.",
    note="Not decided: the equivalence laws and the conformance characterisation over all type pairs as value facts. "),
